@@ -92,18 +92,14 @@ Proof. intros. unfold add_in. rewrite slots_start_push. reflexivity. Qed.
 Lemma slots_pull_if_needed : forall g now, slots (fst (fst (pull_if_needed g now))) = slots g.
 Proof. intros. unfold pull_if_needed. destruct (should_start g now) as [[|] r]; reflexivity. Qed.
 Lemma slots_stop_pull : forall g, slots (fst (stop_pull g)) = slots g.
-Proof.
-  intros. unfold stop_pull. simpl.
-  destruct (pp_rtmp (g_pp g)) eqn:E1; [unfold slots; simpl; rewrite E1; reflexivity|].
-  destruct (pp_rtsp (g_pp g)) eqn:E2; unfold slots; simpl; rewrite E1, E2; reflexivity.
-Qed.
-Lemma slots_tick_pull : forall g now, slots (fst (tick_pull g now)) = slots g.
+Proof. reflexivity. Qed.
+Lemma slots_tick_pull : forall g now, slots (fst (fst (tick_pull g now))) = slots g.
 Proof.
   intros. unfold tick_pull.
   set (g1 := if has_sub g then _ else g).
   assert (H1 : slots g1 = slots g) by (subst g1; destruct (has_sub g); reflexivity).
   destruct (should_auto_stop g1 now).
-  - simpl. rewrite slots_stop_pull. exact H1.
+  - simpl. exact H1.
   - destruct (pull_if_needed g1 now) as [[g2 st] r] eqn:E. simpl.
     change g2 with (fst (fst (g2, st, r))). rewrite <- E. rewrite slots_pull_if_needed. exact H1.
 Qed.
@@ -139,9 +135,7 @@ Qed.
 Lemma slots_ok_ps_del : forall g s, slots_ok g -> slots_ok (ps_del g s).
 Proof.
   intros g s H. unfold ps_del.
-  set (g0 := g_set_ps_closed g _).
-  assert (H0 : slots_ok g0) by (eapply slots_ok_slots; [|exact H]; reflexivity).
-  destruct (opt_is (g_ps g0) s); [apply slots_ok_del_in|]; assumption.
+  destruct (opt_is (g_ps g) s); [apply slots_ok_del_in|]; assumption.
 Qed.
 
 Lemma slots_ok_new_group : forall cf id now, slots_ok (new_group cf id now).
@@ -150,17 +144,10 @@ Proof. intros. unfold slots_ok, occupied. simpl. lia. Qed.
 Lemma slots_ok_dispose_group : forall g, slots_ok g -> slots_ok (dispose_group g).
 Proof.
   intros g H. unfold dispose_group. apply slots_ok_del_in.
-  destruct (g_ps g); (eapply slots_ok_slots; [|exact H]); reflexivity.
+  eapply slots_ok_slots; [|exact H]; reflexivity.
 Qed.
 
 (* ---- predicates on single groups that every step preserves ------------------------------ *)
-Definition attach_pull (g : group) (rt : bool) (i : N) : group :=
-  let p := g_pp g in
-  g_set_pp g (if rt then pp_set_run p (pp_pulling p) (Some i) (pp_rtsp p)
-              else pp_set_run p (pp_pulling p) (pp_rtmp p) (Some i)).
-Definition push_apply (g : group) (t : nat) (next : push) : group :=
-  g_set_push g (upd_nth t (fun _ => next) (g_push g)).
-
 Record gw_closed (fx : fixes) (Q : group -> Prop) : Prop := {
   gw_new : forall cf id now, Q (new_group cf id now);
   gw_admit : forall g sl n p, Q g -> has_in g = false -> Q (add_in p (set_slot g sl n));
@@ -171,14 +158,12 @@ Record gw_closed (fx : fixes) (Q : group -> Prop) : Prop := {
   gw_del_in : forall g sl n, Q g -> opt_is (get_slot g sl) n = true -> Q (del_in g);
   gw_api_stop : forall g, Q g -> Q (fst (stop_pull (g_set_pp g (pp_set_api (g_pp g) false))));
   gw_req : forall g rt r a, Q g -> Q (g_set_pp g (pp_set_req (g_pp g) rt r a));
-  gw_ps_closed : forall g n, Q g -> opt_is (g_ps g) n = true -> Q (g_set_ps_closed g (Some n));
   gw_pull_del : forall g a, Q g -> Q (pull_del fx g a);
-  gw_ps_del : forall g s, Q g -> Q (ps_del g s);
   gw_attach : forall g rt i p, Q g -> has_in g = false -> Q (add_in p (attach_pull g rt i));
   gw_push_off : forall g t, Q g -> Q (push_apply g t (mk_push false false));
   gw_push_on : forall g t, Q g -> (fx_f27 fx = true -> is_some (g_rtmp g) || is_some (g_rtsp g) = true) ->
                            Q (push_apply g t (mk_push true true));
-  gw_tick : forall g now, Q g -> Q (start_push (fst (tick_pull g now)));
+  gw_tick : forall g now, Q g -> Q (start_push (fst (fst (tick_pull g now))));
   gw_dispose : forall g, Q g -> Q (dispose_group g)
 }.
 
@@ -186,6 +171,8 @@ Section Groupwise.
 Variable fx : fixes.
 Variable Q : group -> Prop.
 Hypothesis HQ : gw_closed fx Q.
+
+Ltac same H := eapply all_groups_same; [|exact H]; reflexivity.
 
 Lemma gw_get_or_create : forall cf st s st1 g,
   all_groups Q st -> get_or_create cf st s = (st1, g) -> all_groups Q st1 /\ Q g /\ get_group st1 s = Some g.
@@ -207,8 +194,7 @@ Proof.
   pose proof (gw_pull_if _ _ HQ g (st_now st) Hg) as Hp.
   destruct (pull_if_needed g (st_now st)) as [[g2 started] r2]. simpl in Hp.
   destruct started.
-  - unfold alloc_att in E. inversion E; subst. split; [|assumption].
-    eapply all_groups_same; [|exact H]. reflexivity.
+  - unfold alloc_att in E. inversion E; subst. split; [|assumption]. same H.
   - inversion E; subst. split; assumption.
 Qed.
 
@@ -222,7 +208,7 @@ Proof.
   destruct (check && has_in g0) eqn:Ec.
   - inversion E; subst. assumption.
   - unfold next_pipe in E. inversion E; subst.
-    apply all_groups_put; [eapply all_groups_same; [|exact H0]; reflexivity|].
+    apply all_groups_put; [same H0|].
     destruct check; simpl in Ec.
     + apply (gw_admit _ _ HQ); assumption.
     + destruct (Hc eq_refl) as [-> Hf]. apply (gw_admit_ps _ _ HQ); assumption.
@@ -258,20 +244,30 @@ Proof.
   apply (gw_subs_del _ _ HQ). eapply all_groups_get; eauto.
 Qed.
 
+Lemma gw_stop_and_del : forall s g, Q g ->
+  Q (fst (fst (stop_and_del fx s (g_set_pp g (pp_set_api (g_pp g) false))))).
+Proof.
+  intros s g Hg. unfold stop_and_del.
+  pose proof (gw_api_stop _ _ HQ g Hg) as Hs.
+  destruct (stop_pull _) as [g1 [a|]]; simpl in *; [apply (gw_pull_del _ _ HQ)|]; assumption.
+Qed.
+
 Lemma gw_kick_group : forall st s g t, all_groups Q st -> get_group st s = Some g ->
-  all_groups Q (fst (kick_group st s g t)).
+  all_groups Q (fst (fst (kick_group fx st s g t))).
 Proof.
   intros st s g t H Eg. pose proof (all_groups_get _ _ _ _ H Eg) as Hg.
   unfold kick_group. destruct t as [n|s' i].
   - destruct (find_sess n (st_sess st)); [|assumption].
     destruct (s_kind s0); simpl; try assumption;
       match goal with |- context[if ?c then _ else _] => destruct c eqn:Ec end; simpl; try assumption;
-      try (eapply all_groups_same; [|exact H]; reflexivity).
-    apply all_groups_put; [eapply all_groups_same; [|exact H]; reflexivity|].
-    apply (gw_ps_closed _ _ HQ); assumption.
+      try (same H).
+    apply all_groups_put; [same H|].
+    unfold ps_del. rewrite Ec. apply (gw_del_in _ _ HQ g PsPs n); assumption.
   - destruct (_ && _); [|assumption].
-    pose proof (gw_api_stop _ _ HQ g Hg) as Hs.
-    destruct (stop_pull _) as [g1 o]. simpl in *. apply all_groups_put; assumption.
+    pose proof (gw_stop_and_del s g Hg) as Hs.
+    destruct (stop_and_del _ _ _) as [[g1 a] ns]. simpl in *.
+    destruct a; simpl; (eapply all_groups_same with (st2 := put_group st s g1); [reflexivity|]);
+      apply all_groups_put; assumption.
 Qed.
 
 Lemma gw_push_event_off : forall st s t w, all_groups Q st ->
@@ -283,103 +279,74 @@ Proof.
   apply (gw_push_off _ _ HQ g t). eapply all_groups_get; eauto.
 Qed.
 
+Lemma gw_tick_group : forall s g now, Q g -> Q (fst (fst (fst (tick_group fx s g now)))).
+Proof.
+  intros s g now Hg. unfold tick_group.
+  pose proof (gw_tick _ _ HQ g now Hg) as Ht.
+  destruct (tick_pull g now) as [[g1 started] [a|]]; simpl in *; [apply (gw_pull_del _ _ HQ)|]; assumption.
+Qed.
+
 Lemma gw_tick_groups : forall now l atts cnt,
   Forall (fun kv => Q (snd kv)) l ->
-  Forall (fun kv => Q (snd kv)) (fst (fst (tick_groups now l atts cnt))).
+  Forall (fun kv => Q (snd kv)) (fst (fst (fst (tick_groups fx now l atts cnt)))).
 Proof.
-  intros now l. induction l as [|[s g] t IH]; intros atts cnt H; simpl; [constructor|].
-  inversion H; subst. simpl in *.
+  intros now l. induction l as [|[s g] t IH]; intros atts cnt H; [constructor|].
+  inversion H; subst. simpl in H2. cbn [tick_groups].
   destruct (inactive g now); [apply IH; assumption|].
-  pose proof (gw_tick _ _ HQ g now H2) as Ht.
-  destruct (tick_pull g now) as [g1 started]. simpl in Ht.
-  destruct started.
-  - match goal with |- context[tick_groups now t ?a ?c] => specialize (IH a c H3); destruct (tick_groups now t a c) as [[t1 a2] c2] end.
-    simpl in *. constructor; assumption.
-  - specialize (IH atts cnt H3). destruct (tick_groups now t atts cnt) as [[t1 a2] c2].
-    simpl in *. constructor; assumption.
+  pose proof (gw_tick_group s g now H2) as Ht.
+  destruct (tick_group fx s g now) as [[[g1 started] fin] ns]. simpl in Ht.
+  match goal with |- context[let '(a1, c1) := ?X in _] => destruct X as [atts1 cnt1] end.
+  match goal with |- context[tick_groups fx now t ?a ?c] => specialize (IH a c H3); destruct (tick_groups fx now t a c) as [[[t1 a3] c3] ns2] end.
+  simpl in *. constructor; assumption.
 Qed.
 
-Lemma gw_settle_group : forall s g, Q g -> Q (snd (fst (fst (settle_group fx (s, g))))).
-Proof.
-  intros s g H2. unfold settle_group. destruct (pp_closed (g_pp g)) as [a|]; simpl.
-  - pose proof (gw_pull_del _ _ HQ g a H2) as Hd.
-    destruct (g_ps_closed (pull_del fx g a)); simpl; [apply (gw_ps_del _ _ HQ)|]; assumption.
-  - destruct (g_ps_closed g); simpl; [apply (gw_ps_del _ _ HQ)|]; assumption.
-Qed.
-
-Lemma gw_settle_groups : forall l, Forall (fun kv => Q (snd kv)) l ->
-  Forall (fun kv => Q (snd kv)) (fst (fst (settle_groups fx l))).
-Proof.
-  induction l as [|[s g] t IH]; intros H; [constructor|].
-  inversion H; subst. specialize (IH H3). simpl in H2.
-  pose proof (gw_settle_group s g H2) as Hg.
-  cbn [settle_groups].
-  destruct (settle_group fx (s, g)) as [[sg1 n1] f1].
-  destruct (settle_groups fx t) as [[t1 n2] f2]. simpl in *. constructor; assumption.
-Qed.
-
-Lemma gw_settle : forall st, all_groups Q st -> all_groups Q (fst (settle fx st)).
-Proof.
-  intros st H. unfold settle.
-  pose proof (gw_settle_groups _ H) as Hs.
-  destruct (settle_groups fx (st_groups st)) as [[gs ns] fin]. simpl in *. exact Hs.
-Qed.
-End Groupwise.
-
-Section GroupwiseStep.
-Variable fx : fixes.
-Variable Q : group -> Prop.
-Hypothesis HQ : gw_closed fx Q.
-
-Ltac same H := eapply all_groups_same; [|exact H]; reflexivity.
-
-Lemma gw_step_core : forall cf st e, all_groups Q st -> all_groups Q (fst (fst (step_core fx cf st e))).
+Lemma gw_step : forall cf st e, all_groups Q st -> all_groups Q (fst (fst (step fx cf st e))).
 Proof.
   intros cf st e H. destruct e; simpl.
   - (* ERtmpPub *)
     destruct (fresh st n); simpl; [|assumption]. destruct deny; simpl; [same H|].
     destruct (admit_pub cf st PsRtmp s n true) as [[st1 ok] g] eqn:E.
-    assert (H1 : all_groups Q st1) by (eapply (gw_admit_pub fx Q HQ); [exact H| |exact E]; intros Hx; discriminate Hx).
+    assert (H1 : all_groups Q st1) by (eapply gw_admit_pub; [exact H| |exact E]; intros Hx; discriminate Hx).
     destruct ok; simpl; same H1.
   - (* ERtmpSub *)
     destruct (fresh st n); simpl; [|assumption]. destruct deny; simpl; [same H|].
     destruct (admit_sub cf st SkRtmp s n true) as [[st1 g]|] eqn:E; simpl; [|assumption].
-    pose proof (gw_admit_sub fx Q HQ _ _ _ _ _ _ _ _ H E) as H1. same H1.
+    pose proof (gw_admit_sub _ _ _ _ _ _ _ _ H E) as H1. same H1.
   - (* ERtspPub *)
     destruct (fresh st n); simpl; [|assumption]. destruct deny; simpl; [same H|].
     destruct (admit_pub cf st PsRtsp s n true) as [[st1 ok] g] eqn:E.
-    assert (H1 : all_groups Q st1) by (eapply (gw_admit_pub fx Q HQ); [exact H| |exact E]; intros Hx; discriminate Hx).
+    assert (H1 : all_groups Q st1) by (eapply gw_admit_pub; [exact H| |exact E]; intros Hx; discriminate Hx).
     destruct ok; simpl; same H1.
   - (* ERtspSub *)
     destruct (fresh st n); simpl; [|assumption]. destruct deny; simpl; [same H|].
     destruct (admit_sub cf st SkRtsp s n false) as [[st1 g]|] eqn:E; simpl; [|assumption].
-    pose proof (gw_admit_sub fx Q HQ _ _ _ _ _ _ _ _ H E) as H1. same H1.
+    pose proof (gw_admit_sub _ _ _ _ _ _ _ _ H E) as H1. same H1.
   - (* ERtspPlay *)
     destruct (find_sess n (st_sess st)) as [x|]; simpl; [|assumption].
     destruct (s_kind x); simpl; try assumption.
     destruct (s_gone x || s_closed x); simpl; [assumption|].
     destruct (get_or_create cf st (s_stream x)) as [st1 g] eqn:Eg.
-    destruct (gw_get_or_create fx Q HQ _ _ _ _ _ H Eg) as [H1 [Hg _]].
+    destruct (gw_get_or_create _ _ _ _ _ H Eg) as [H1 [Hg _]].
     destruct (pull_if_needed_st st1 (s_stream x) g) as [[[st2 g2] o] r] eqn:Ep.
-    destruct (gw_pull_if_needed_st fx Q HQ _ _ _ _ _ _ _ H1 Hg Ep) as [H2 Hg2].
+    destruct (gw_pull_if_needed_st _ _ _ _ _ _ _ H1 Hg Ep) as [H2 Hg2].
     simpl. apply all_groups_put; assumption.
   - (* EFlvSub *)
     destruct (fresh st n); simpl; [|assumption]. destruct deny; simpl; [same H|].
     destruct (admit_sub cf st SkFlv s n true) as [[st1 g]|] eqn:E; simpl; [|assumption].
-    pose proof (gw_admit_sub fx Q HQ _ _ _ _ _ _ _ _ H E) as H1. same H1.
+    pose proof (gw_admit_sub _ _ _ _ _ _ _ _ H E) as H1. same H1.
   - (* ETsSub *)
     destruct (fresh st n); simpl; [|assumption]. destruct deny; simpl; [same H|].
     destruct (admit_sub cf st SkTs s n true) as [[st1 g]|] eqn:E; simpl; [|assumption].
-    pose proof (gw_admit_sub fx Q HQ _ _ _ _ _ _ _ _ H E) as H1. same H1.
+    pose proof (gw_admit_sub _ _ _ _ _ _ _ _ H E) as H1. same H1.
   - (* ECustPub *)
     destruct (fresh st n); simpl; [|assumption].
     destruct (admit_pub cf st PsCust s n true) as [[st1 ok] g] eqn:E.
-    assert (H1 : all_groups Q st1) by (eapply (gw_admit_pub fx Q HQ); [exact H| |exact E]; intros Hx; discriminate Hx).
+    assert (H1 : all_groups Q st1) by (eapply gw_admit_pub; [exact H| |exact E]; intros Hx; discriminate Hx).
     destruct ok; simpl; same H1.
   - (* EPsPub *)
     destruct (fresh st n); simpl; [|assumption].
     destruct (admit_pub cf st PsPs s n (fx_f09 fx)) as [[st1 ok] g] eqn:E.
-    assert (H1 : all_groups Q st1) by (eapply (gw_admit_pub fx Q HQ); [exact H| |exact E]; intros Hx; split; [reflexivity|exact Hx]).
+    assert (H1 : all_groups Q st1) by (eapply gw_admit_pub; [exact H| |exact E]; intros Hx; split; [reflexivity|exact Hx]).
     destruct ok; simpl; same H1.
   - (* EGone *)
     destruct (find_sess n (st_sess st)) as [x|]; simpl; [|assumption].
@@ -387,26 +354,28 @@ Proof.
     destruct (s_kind x); simpl; try assumption;
     match goal with
     | |- context[depart_pub ?a ?b ?c ?d ?e] =>
-        pose proof (gw_depart_pub fx Q HQ a b c d e) as Hd; destruct (depart_pub a b c d e) as [st1 ns]; simpl in *; apply Hd
+        pose proof (gw_depart_pub a b c d e) as Hd; destruct (depart_pub a b c d e) as [st1 ns]; simpl in *; apply Hd
     | |- context[depart_sub ?a ?b ?c ?d] =>
-        pose proof (gw_depart_sub fx Q HQ a b c d) as Hd; destruct (depart_sub a b c d) as [st1 ns]; simpl in *; apply Hd
+        pose proof (gw_depart_sub a b c d) as Hd; destruct (depart_sub a b c d) as [st1 ns]; simpl in *; apply Hd
     end; try (same H).
     destruct (fx_f26 fx && _); same H.
   - (* EKick *)
     destruct (get_group st s) as [g|] eqn:Eg; simpl; [|assumption].
-    pose proof (gw_kick_group fx Q HQ st s g t H Eg) as Hk.
-    destruct (kick_group st s g t) as [st1 ok]. simpl in *. exact Hk.
+    pose proof (gw_kick_group st s g t H Eg) as Hk.
+    destruct (kick_group fx st s g t) as [[st1 ok] ns]. simpl in *. exact Hk.
   - (* EStartPull *)
     destruct (get_or_create cf st s) as [st1 g] eqn:Eg.
-    destruct (gw_get_or_create fx Q HQ _ _ _ _ _ H Eg) as [H1 [Hg _]].
+    destruct (gw_get_or_create _ _ _ _ _ H Eg) as [H1 [Hg _]].
     pose proof (gw_req _ _ HQ g rtmp retry autostop Hg) as Hr.
     destruct (pull_if_needed_st st1 s _) as [[[st2 g2] o] r] eqn:Ep.
-    destruct (gw_pull_if_needed_st fx Q HQ _ _ _ _ _ _ _ H1 Hr Ep) as [H2 Hg2].
+    destruct (gw_pull_if_needed_st _ _ _ _ _ _ _ H1 Hr Ep) as [H2 Hg2].
     simpl. apply all_groups_put; assumption.
   - (* EStopPull *)
     destruct (get_group st s) as [g|] eqn:Eg; simpl; [|assumption].
-    pose proof (gw_api_stop _ _ HQ g (all_groups_get _ _ _ _ H Eg)) as Hs.
-    destruct (stop_pull _) as [g1 a]. simpl in *. apply all_groups_put; assumption.
+    pose proof (gw_stop_and_del s g (all_groups_get _ _ _ _ H Eg)) as Hs.
+    destruct (stop_and_del _ _ _) as [[g1 a] ns]. simpl in *.
+    destruct a; simpl; (eapply all_groups_same with (st2 := put_group st s g1); [reflexivity|]);
+      apply all_groups_put; assumption.
   - (* EPullSucc *)
     destruct (find_att s i (st_atts st)) as [a|]; simpl; [|assumption].
     destruct (get_group st s) as [g|] eqn:Eg; simpl; [|assumption].
@@ -446,15 +415,15 @@ Proof.
         destruct (is_some (g_rtmp g)), (is_some (g_rtsp g)); simpl in *; try discriminate En; reflexivity.
     + apply (gw_push_on _ _ HQ g t Hg). rewrite E27. intros Hx; discriminate Hx.
   - (* EPushFail *)
-    pose proof (gw_push_event_off fx Q HQ st s t false H) as Hp.
+    pose proof (gw_push_event_off st s t false H) as Hp.
     destruct (push_event st s t false _) as [st1 r]. simpl in *. exact Hp.
   - (* EPushDone *)
-    pose proof (gw_push_event_off fx Q HQ st s t true H) as Hp.
+    pose proof (gw_push_event_off st s t true H) as Hp.
     destruct (push_event st s t true _) as [st1 r]. simpl in *. exact Hp.
   - (* ETick *)
     destruct (st_disposed st); simpl; [assumption|].
-    pose proof (gw_tick_groups fx Q HQ (st_now st) (st_groups st) (st_atts st) (st_cnt st) H) as Ht.
-    destruct (tick_groups _ _ _ _) as [[gs atts] cnt]. simpl in *. exact Ht.
+    pose proof (gw_tick_groups (st_now st) (st_groups st) (st_atts st) (st_cnt st) H) as Ht.
+    destruct (tick_groups _ _ _ _ _) as [[[gs atts] cnt] ns]. simpl in *. exact Ht.
   - (* EAdvance *) same H.
   - (* EDispose *)
     destruct (st_disposed st); simpl; [assumption|].
@@ -466,16 +435,7 @@ Proof.
     destruct (s_kind x); simpl; try assumption;
     match goal with |- context[if ?c then _ else _] => destruct c end; assumption.
 Qed.
-
-Lemma gw_step : forall cf st e, all_groups Q st -> all_groups Q (fst (fst (step fx cf st e))).
-Proof.
-  intros cf st e H. unfold step.
-  pose proof (gw_step_core cf st e H) as H1.
-  destruct (step_core fx cf st e) as [[st1 r] ns]. simpl in H1.
-  pose proof (gw_settle fx Q HQ st1 H1) as H2.
-  destruct (settle fx st1) as [st2 ns2]. simpl in *. exact H2.
-Qed.
-End GroupwiseStep.
+End Groupwise.
 
 (* reachable states *)
 Inductive reachable (fx : fixes) (cf : config) : state -> Prop :=
@@ -508,11 +468,9 @@ Proof.
   - intros g k n H. eapply slots_ok_slots; [|exact H]. reflexivity.
   - intros g now H. eapply slots_ok_slots; [|exact H]. apply slots_pull_if_needed.
   - intros g sl n H _. apply slots_ok_del_in. assumption.
-  - intros g H. eapply slots_ok_slots; [|exact H]. rewrite slots_stop_pull. reflexivity.
+  - intros g H. eapply slots_ok_slots; [|exact H]. reflexivity.
   - intros g rt r a H. eapply slots_ok_slots; [|exact H]. reflexivity.
-  - intros g n H _. eapply slots_ok_slots; [|exact H]. reflexivity.
   - intros g a H. apply slots_ok_pull_del; assumption.
-  - intros g s H. apply slots_ok_ps_del. assumption.
   - intros g rt i p _ Hin. apply has_in_false_occupied in Hin.
     unfold slots_ok. rewrite (occupied_slots _ _ (slots_add_in p _)).
     unfold occupied, attach_pull in *. destruct rt; simpl;
